@@ -24,6 +24,8 @@ type Case struct {
 	Cert    bool    `json:"cert"`    // certificate generation on
 	NbMax   int     `json:"nbmax"`   // lowered learned-clause limit (0 = default)
 	Family  string  `json:"family,omitempty"`
+	CP      bool    `json:"cp,omitempty"`    // solved with the cutting-planes strategy (never together with Cert)
+	Known   string  `json:"known,omitempty"` // "sat" / "unsat": verdict known by construction (formulas too large for the other oracles)
 }
 
 func declared(c Case) int {
@@ -57,6 +59,8 @@ func check(c Case, o *vf.Obs) error {
 	}
 	parseStatus := pb.Status
 	s := solver.New(pb)
+	s.CuttingPlanes = c.CP && !c.Cert
+	o.ClassIf(s.CuttingPlanes, "cutting-planes")
 	res, err := gs.Solve(s, c.Cert, n <= 20)
 	if err != nil {
 		return err
@@ -83,7 +87,9 @@ func check(c Case, o *vf.Obs) error {
 
 	// the truth
 	var truthSat, truthKnown bool
-	if n <= 20 {
+	if c.Known != "" {
+		truthSat, truthKnown = c.Known == "sat", true
+	} else if n <= 20 {
 		truthSat, truthKnown = oracle.CNFSat(n, c.Clauses), true
 	} else if n <= 60 {
 		sat, _, done := oracle.DPLL(n, c.Clauses, 3_000_000)
@@ -228,6 +234,27 @@ func genHard(t *rapid.T) Case {
 			c.NbMax = rapid.IntRange(2, 14).Draw(t, "tinyLimit") // several reductions per run
 		}
 	}
+	c.CP = !c.Cert && gen.Chance(t, 1, 4, "cuttingPlanes")
+	return c
+}
+
+// genLadder: formulas whose conflicts collect hundreds to more than 10 000 literals (gen.Ladder); the verdict is known
+// by construction.
+func genLadder(t *rapid.T) Case {
+	nx := rapid.SampledFrom([]int{40, 150, 300, 600}).Draw(t, "nx") + rapid.IntRange(0, 40).Draw(t, "plus")
+	if gen.Chance(t, 1, 3, "huge") {
+		nx = 10001 + rapid.IntRange(0, 2500).Draw(t, "hugePlus")
+	}
+	var c Case
+	var tail string
+	c.N, c.Clauses, tail = gen.Ladder(t, nx)
+	c.Family = "ladder-" + tail
+	c.Known = "sat"
+	if tail == "unsat" {
+		c.Known = "unsat"
+	}
+	c.Entry = rapid.SampledFrom([]string{"slicenb", "cnf", "slice"}).Draw(t, "entry")
+	c.Cert = tail == "unsat" && nx <= 200 && rapid.Bool().Draw(t, "cert")
 	return c
 }
 
@@ -247,6 +274,7 @@ func genHeavy(t *rapid.T) Case {
 	case 2:
 		c.NbMax = n + 20
 	}
+	c.CP = !c.Cert && gen.Chance(t, 1, 4, "cuttingPlanes")
 	return c
 }
 
@@ -482,6 +510,11 @@ func checkPar(c ParCase, o *vf.Obs) error {
 
 func genPar(t *rapid.T) ParCase {
 	return ParCase{G: rapid.SampledFrom([]int{2, 4, 8}).Draw(t, "g"), Per: rapid.IntRange(30, 120).Draw(t, "per"), N: gen.Uniform(t, 60, 100, "n"), Seed: rapid.Uint64().Draw(t, "seed")}
+}
+
+func init() {
+	vf.Register(vf.Sub[Case]{Name: "ladders", Quick: 12, Thorough: 60, Gen: genLadder, Check: check, Floor: 0.5,
+		Rule: "ladder formulas (gen.Ladder: a clause over 40..640 or 10 001..12 500 variables split on a helper, followed by an implication chain or a gadget) whose first conflicts collect that many literals; verdict known by construction (the other oracles do not reach these sizes), models evaluated; non-trivial as above"})
 }
 
 func init() {
